@@ -80,6 +80,11 @@ func evalOracles(sc *Scenario, all []obs, rec *Rec) {
 			anyRefusal = true
 		}
 	}
+	for _, o := range append(append([]Op{}, sc.Pre...), sc.Ops...) {
+		if o.Kind == "REGOUT" && o.Amend {
+			anyRefusal = true // amended comp ids: outside C05's precondition as well
+		}
+	}
 	expSender, expTarget := sc.Sender, sc.Target
 	gapless := true
 
@@ -147,6 +152,9 @@ func evalOracles(sc *Scenario, all []obs, rec *Rec) {
 		for _, w := range o.Wires {
 			sv, _ := fget(tokenize(w), "34")
 			n, _ := strconv.Atoi(sv)
+			if v, ok := o.Views[n]; ok && !bytes.Equal(v, w) {
+				setFail(rec, "C19", fmt.Sprintf("op %d: message %d was transmitted as %q but the last outgoing handler was shown %q", i, n, w, v))
+			}
 			if !saved[n] {
 				setFail(rec, "C19", fmt.Sprintf("op %d: message %d left without having been saved under its number first", i, n))
 			}
